@@ -282,6 +282,18 @@ func TestVerif_C32(t *testing.T) {
 		})
 		r.Eval(true, "scripted", side, styp, have, mode)
 	})
+	// (c) deterministic script with resets at the end: the RESET_STREAM final size must be the
+	// highest offset sent, also after retransmissions that merged lost and never-sent data
+	nsl := r.N(1500, 40000)
+	r.CasesParallel("scripted-resets", nsl, 0, func(c *verifrt.Case) {
+		res := vslRun(t, c.Rng, true, c.Violation, c.Describe)
+		r.Event("scripted_reset_runs", 1)
+		r.Event("scripted_resets_issued", res.Resets)
+		r.Event("scripted_reset_final_sizes_checked", res.ResetsChecked)
+		r.Event("scripted_stream_frames_seen", res.Frames)
+		r.Eval(res.ResetsChecked > 0 && res.Lost > 0, "vslr", res.Frames, res.Streams, res.ResetsChecked, res.Lost, res.Raises)
+	})
+	r.Require("scripted_reset_final_sizes_checked", 500)
 	r.Require("reset_stream_first_sent", 30)
 	r.Require("reset_stream_retransmitted", 5)
 	r.Require("stop_sending_processed", 10)
